@@ -19,9 +19,12 @@ pub(crate) fn tcnt<H, T>(t: &ThinArc<H, T>) -> usize {
 pub(crate) fn set_tcnt<H, T>(t: &ThinArc<H, T>, n: usize) {
     unsafe { *(tcw(t) as *mut usize) = n }
 }
-/// the recorded length word
+/// the recorded length word, located by the repr(C) rules (NOT through the library's own thin
+/// pointee type, whose alignment is part of what is being checked): the value starts at
+/// max(8, align HeaderWithLength<H>, align T); `length` follows `header: H` at round_up(size H, 8)
 pub(crate) fn rlen<H, T>(t: &ThinArc<H, T>) -> usize {
-    unsafe { core::ptr::addr_of!((*t.ptr.as_ptr()).data.header.length).read() }
+    let off = (tdata(t) - tbase(t)) + (core::mem::size_of::<H>() + 7) / 8 * 8;
+    unsafe { ((t.ptr.as_ptr() as *const u8).wrapping_add(off) as *const usize).read() }
 }
 /// where the HeaderSlice value lives (spec: base + max(8, align of the value))
 pub(crate) fn tdata<H, T>(t: &ThinArc<H, T>) -> usize {
@@ -244,6 +247,21 @@ gproof! { fn c10_thin_with_arc_mut_replace() {
     assert!(tcnt(&t) == 1 && tvalid(&t));
     if n == 1 { assert!(vrt::gd(1) && !vrt::g_live(b0)); } else { assert!(vrt::gd(0) && rd(c0) == n - 1); }
     assert!(vrt::ga(2));
+    core::mem::forget(t);
+} }
+
+// @h props=C10,C06 fuc=ThinArc::from_header_and_slice,thin_to_thick note="element type more aligned than usize AND than the header: the thin view must keep the element alignment (usize header value != length)"
+gproof! { fn c10_thin_from_slice_repr__usize_a16() {
+    let buf = [S16a16::any(), S16a16::any(), S16a16::any()];
+    let len: usize = kani::any();
+    kani::assume(len <= 3);
+    let h: usize = kani::any();
+    let t = ThinArc::from_header_and_slice(h, &buf[..len]);
+    assert!(rlen(&t) == len && t.slice.len() == len && t.header.length == len && t.header.header == h);
+    let i: usize = kani::any();
+    kani::assume(i < 3);
+    if i < len { assert!(t.slice[i] == buf[i]); }
+    assert!(tvalid(&t));
     core::mem::forget(t);
 } }
 
